@@ -618,20 +618,21 @@ func (r *collection) addService(service any, lifetime Lifetime, opts ...AddOptio
 		for _, field := range descriptor.resultFields {
 			// Create a descriptor for each field type
 			fieldDescriptor := &Descriptor{
-				Type:            field.Type,
-				Key:             field.Key,
-				Lifetime:        descriptor.Lifetime,
-				Constructor:     descriptor.Constructor,
-				ConstructorType: descriptor.ConstructorType,
-				Dependencies:    descriptor.Dependencies,
-				Group:           field.Group,
-				As:              descriptor.As,
-				IsInstance:      false,
-				isFunc:          descriptor.isFunc,
-				isResultObject:  true,
-				resultFields:    descriptor.resultFields,
-				isParamObject:   descriptor.isParamObject,
-				paramFields:     descriptor.paramFields,
+				Type:             field.Type,
+				Key:              field.Key,
+				Lifetime:         descriptor.Lifetime,
+				Constructor:      descriptor.Constructor,
+				ConstructorType:  descriptor.ConstructorType,
+				Dependencies:     descriptor.Dependencies,
+				Group:            field.Group,
+				As:               descriptor.As,
+				IsInstance:       false,
+				isFunc:           descriptor.isFunc,
+				isResultObject:   true,
+				resultFieldIndex: field.Index,
+				resultFields:     descriptor.resultFields,
+				isParamObject:    descriptor.isParamObject,
+				paramFields:      descriptor.paramFields,
 			}
 
 			pending = append(pending, fieldDescriptor)
@@ -755,6 +756,7 @@ func (r *collection) registerAll(descriptors []*Descriptor, operation string) er
 	}
 
 	for _, descriptor := range descriptors {
+		descriptor.siblings = descriptors
 		if err := r.registerDescriptor(descriptor); err != nil {
 			return &RegistrationError{
 				ServiceType: descriptor.Type,
